@@ -1,8 +1,10 @@
 #include "hx.h"
 void engineCache(const std::vector<std::string> &, const std::vector<std::string> &);
 void engineCodec(const std::vector<std::string> &, const std::vector<std::string> &);
+void engineActor(const std::vector<std::string> &, const std::vector<std::string> &);
 void registerAllEngines()
 {
     registerEngine("cache", engineCache);
     registerEngine("codec", engineCodec);
+    for (const char *n : {"actor", "prober", "hostname", "provider", "browser", "resolver"}) registerEngine(n, engineActor);
 }
